@@ -747,6 +747,27 @@ type walker struct {
 	c      *lctx
 	fn     *lfunc
 	asyncN int
+	joins  bool // the function waits for the goroutines it starts (sync.WaitGroup.Wait): their bodies run while its locks are held
+}
+
+// loopLock is the pseudo-lock of a torrent's event loop: the loop goroutine holds it while it handles an event
+// (`torrent.run` is walked with it held) and a function that waits for the loop to take a command or to exit
+// (`sendCommand`, `recvResponse`, `<-t.doneC`) acquires it for an instant.
+const loopLock = "torrent.loop"
+
+func (w *walker) touch(st *lstate, name string, pos token.Pos) {
+	w.fn.acqs = append(w.fn.acqs, acqSite{lock: name, pos: pos, excl: true, held: st.snapshot()})
+}
+
+func (w *walker) scanJoins(body *ast.BlockStmt) {
+	ast.Inspect(body, func(n ast.Node) bool {
+		if call, ok := n.(*ast.CallExpr); ok {
+			if se, ok := call.Fun.(*ast.SelectorExpr); ok && se.Sel.Name == "Wait" && len(call.Args) == 0 && deref(w.c.typeOf(se.X)) == "sync.WaitGroup" {
+				w.joins = true
+			}
+		}
+		return !w.joins
+	})
 }
 
 func (w *walker) acquire(st *lstate, name string, pos token.Pos, excl, loopDep bool) {
@@ -859,6 +880,9 @@ func (w *walker) call(x *ast.CallExpr, st *lstate) {
 			return
 		}
 	}
+	if id, ok := x.Fun.(*ast.Ident); ok && (id.Name == "sendCommand" || id.Name == "recvResponse") && w.c.pkg.name == "torrent" {
+		w.touch(st, loopLock, x.Pos())
+	}
 	if f := w.c.resolveCall(x); f != nil {
 		w.fn.calls = append(w.fn.calls, callSite{callee: f, pos: x.Pos(), held: st.snapshot()})
 	}
@@ -882,6 +906,10 @@ func (w *walker) expr(e ast.Expr, st *lstate) {
 			return false
 		case *ast.SelectorExpr:
 			w.sessionFieldAccess(x, st, false)
+		case *ast.UnaryExpr:
+			if se, ok := x.X.(*ast.SelectorExpr); ok && x.Op == token.ARROW && se.Sel.Name == "doneC" && deref(w.c.typeOf(se.X)) == "torrent.torrent" {
+				w.touch(st, loopLock, x.Pos())
+			}
 		}
 		return true
 	})
@@ -963,6 +991,11 @@ func (w *walker) stmt(s ast.Stmt, st *lstate) bool {
 		}
 		if fl, ok := x.Call.Fun.(*ast.FuncLit); ok {
 			w.async(fl, "go")
+			if w.joins {
+				w.block(fl.Body.List, st.copy())
+			}
+		} else if f := w.c.resolveCall(x.Call); f != nil && w.joins {
+			w.fn.calls = append(w.fn.calls, callSite{callee: f, pos: x.Call.Pos(), held: st.snapshot()})
 		}
 	case *ast.AssignStmt:
 		for _, r := range x.Rhs {
@@ -1149,7 +1182,12 @@ func analyseLocks(p *lockProg) *lockFacts {
 	base := append([]*lfunc(nil), p.funcs...)
 	for _, f := range base {
 		w := &walker{c: &lctx{p: p, pkg: f.pkg, file: f.file, fn: f}, fn: f}
-		w.block(f.body.List, &lstate{})
+		w.scanJoins(f.body)
+		st := &lstate{}
+		if f.name == "torrent.run" {
+			st.add(heldLock{name: loopLock, pos: f.body.Pos(), excl: true})
+		}
+		w.block(f.body.List, st)
 	}
 	sort.SliceStable(p.funcs, func(i, j int) bool { return p.funcs[i].name < p.funcs[j].name })
 	lf := &lockFacts{nfuncs: len(p.funcs), funcs: p.funcs}
